@@ -2,7 +2,6 @@ import JadeModel.Proofs.SystemStatusFlow3a
 import JadeModel.Proofs.SystemStatusFlow3b
 import JadeModel.Proofs.SystemStatusFlow3c
 import JadeModel.Proofs.SystemStatusFlow3d
-import JadeModel.Proofs.SystemStatusFlow3e
 
 set_option linter.unusedSimpArgs false
 
@@ -16,10 +15,9 @@ theorem flowA_pass_step {s s' : Sys} {op : Op} (hn : NodeInv s) (ha : FlowA s) (
     (∀ q a y, s'.procs q = .sub a y → y.newly.Nodup) ∧
     (∀ j, s'.disk.st j = .done → ∃ r ∈ s'.processed, r.job = j) := by
   have c0 := flowA_pass_step_1 hn ha hb hop h
-  have c1 := flowA_pass_step_2 hn ha hb hop h
+  obtain ⟨c1, c4⟩ := flowA_pass_step_2 hn ha hb hop h
   have c2 := flowA_pass_step_3 hn ha hb hop h
   have c3 := flowA_pass_step_4 hn ha hb hop h
-  have c4 := flowA_pass_step_5 hn ha hb hop h
   exact ⟨c0, c1, c2, c3, c4⟩
 
 end Jade.Sys
